@@ -386,6 +386,11 @@ class Engine:
             ea = AssocDict.from_concrete(da).entries if isinstance(da, dict) else da.entries
             eb = AssocDict.from_concrete(db).entries if isinstance(db, dict) else db.entries
             return self.prove_value_eq(name + '.entries', ea, eb, tier, kind)
+        from .models_iso import AssocDict as _AD
+        if (isinstance(a, _AD) or isinstance(b, _AD)) and isinstance(a, (_AD, dict)) and isinstance(b, (_AD, dict)):
+            ea = _AD.from_concrete(a).entries if isinstance(a, dict) else a.entries
+            eb = _AD.from_concrete(b).entries if isinstance(b, dict) else b.entries
+            return self.prove_value_eq(name + '.entries', ea, eb, tier, kind)
         if isinstance(a, VRef) and isinstance(b, VRef) and a.oid != b.oid:
             ca, cb = self.heap.get(a.oid), self.heap.get(b.oid)
             if ca is not None and cb is not None and ca.get('__kind__') in ('list',) and cb.get('__kind__') == ca.get('__kind__'):
@@ -680,7 +685,10 @@ class Engine:
                     self.throw(TypeError, 'missing argument %s' % p)
                 locs[p] = self.default_value(fi, ('pos', di), defaults[di])
         extra = args[len(params):]
-        if a.vararg:
+        if a.vararg and '__varargs__' in kwargs:
+            # ghost-level call with a symbolic-length tuple of extra positional arguments (f(*parts) for any number of parts)
+            locs[a.vararg.arg] = kwargs.pop('__varargs__')
+        elif a.vararg:
             locs[a.vararg.arg] = VTuple(extra)
         elif extra:
             self.throw(TypeError, 'too many positional arguments')
